@@ -241,8 +241,6 @@ def collect(repo):
     pats["rx_double_dot_search"] = searches[0]
 
     import importlib
-    for mod in [m for m in list(sys.modules) if m == "lasio" or m.startswith("lasio.")]:
-        del sys.modules[mod]
     reader = importlib.import_module("lasio.reader")
     defaults = importlib.import_module("lasio.defaults")
     pats["rx_sow"] = reader.sow_regex.pattern
